@@ -20,6 +20,21 @@ CLAIMED = {
     ),
 }
 
+CLAIMED.update({
+    "C14": (
+        "property-based round-trip testing: generated mini-gringo trees -> text by an independent fully-parenthesising printer (random whitespace/comments/spellings) -> parse/print/parse; oracle = tree identity and print stability (proptest, shrinking)",
+        "Exploration: every generated term, atom, body element, rule and program is rendered by the checker's own printer, parsed by anthem, printed by anthem and parsed again; the two trees must be identical and the printed text stable. All (parent operator, side, child operator/negative numeral) pairs are populated thousands of times per run (histogram in the evidence).",
+        "Trusted: the checker's printer produces text whose parse is the generated tree's normal form; only trees in the image of the parser are compared.",
+        "4/C14",
+    ),
+    "C15": (
+        "property-based round-trip testing: (a) generated target-language trees via an independent printer -> parse/print/parse identity; (b) every output of translate/simplify on generated programs is re-parsed and compared (tree, else meaning by evaluation)",
+        "Exploration: (a) as C14 for integer/general terms, formulas, theories, specifications (all roles/directions/names) and user guides with every accepted sort spelling; (b) the text printed for tau-star, natural, mu, gamma, completion and the 9 simplify variants on generated programs (predicate names such as notp, _r; variables named like the translators' fresh names) must be accepted, stable, and denote the same theory.",
+        "Trusted: the checker's printer; for (b) the tree comparison (falls back to the checker's evaluator only when trees differ).",
+        "4/C14-C15",
+    ),
+})
+
 NOT_YET = {}
 
 def main():
